@@ -280,6 +280,19 @@ def _prepTgForSaving(
 ) -> Dict:
     _sortEntries(tg)
 
+    # A requested min or max timestamp must not cut into the data--this holds
+    # for every tier, whether or not blank spaces are filled in
+    for tier in tg["tiers"]:
+        for entry in tier["entries"]:
+            if minTimestamp is not None and float(entry[0]) < float(minTimestamp):
+                raise errors.ParsingError(
+                    "The entries are shorter than the min time specified in the textgrid."
+                )
+            if maxTimestamp is not None and float(entry[-2]) > float(maxTimestamp):
+                raise errors.ParsingError(
+                    "The entries are longer than the max time specified in the textgrid."
+                )
+
     if minTimestamp is None:
         minTimestamp = tg["xmin"]
     else:
